@@ -1,17 +1,20 @@
 // C13 — SQL transactions are atomic and isolated, incl. rollback and savepoints (SEQUENTIAL part).
 //
-// Space: ALL transaction programs up to a length (quick 5, thorough 6) over the 16-statement alphabet below,
-// driven statement by statement through sql.Engine.Exec (an open transaction is continued by passing the
-// returned *SQLTx back in), on a fresh store + engine per program (iterative deepening). Fixture: tables
-// a(id INTEGER AUTO_INCREMENT, v) with row (1,0) and t(id INTEGER, v) with row (1,1), all statements collide
-// on t[1]/t[2]. A statement that is a protocol error in the reference AND in the engine (COMMIT / SAVEPOINT
-// outside a transaction, BEGIN inside one, ROLLBACK TO / RELEASE of a savepoint that was never established)
-// is checked and not extended. "outside:" is a statement of a second, autocommit session executed while the
-// transaction is open (sequentially; this is the only way to make a COMMIT fail).
+// Space (engine front): ALL transaction programs over the 16-statement alphabet below up to a length (quick 4,
+// thorough 5), plus the programs that start with BEGIN extended by one more statement (quick: COMMIT or
+// ROLLBACK, i.e. every 3-statement transaction body is also committed and rolled back; thorough: any
+// statement), driven statement by statement through sql.Engine.Exec (an open transaction is continued by
+// passing the returned *SQLTx back in), each on a fresh copy of the fixture store (breadth-first = iterative
+// deepening). Fixture: tables a(id INTEGER AUTO_INCREMENT, v) with row (1,0) and t(id INTEGER, v) with row
+// (1,1); all statements collide on t[1]/t[2]. A statement that is a protocol error in the reference AND in the
+// engine (COMMIT / SAVEPOINT outside a transaction, BEGIN inside one, ROLLBACK TO / RELEASE of a savepoint that
+// was never established) is checked and not extended. "outside:" is a statement of a second, autocommit
+// session executed while the transaction is open (sequentially; the only way to make a COMMIT fail).
+// (Measured: ~25 ms CPU per program, store open/close dominates; 25k programs in the quick tier.)
 //
-// Observation modes (each program runs in every mode): "all" = views compared after every statement,
-// "last" = statement results after every statement but views only after the last one (no extra reads inside
-// the transaction), "batch" = the whole program as ONE Exec call ("BEGIN; ...; COMMIT" script).
+// Observation modes (each program runs in both): "all" = views compared after every statement, "last" =
+// statement results after every statement but views only after the last one (no extra reads inside the
+// transaction) followed by a close + reopen of store and engine.
 //
 // Oracle = reference interpreter (type model): committed tables + copy-on-begin working tables + savepoint
 // snapshots. Semantics taken from the code: ANY failing statement inside a transaction aborts the whole
@@ -36,9 +39,7 @@ import (
 	"os"
 	"path/filepath"
 	"runtime/debug"
-	"runtime/pprof"
 	"sort"
-	"strconv"
 	"strings"
 	"sync"
 	"sync/atomic"
@@ -51,7 +52,6 @@ import (
 )
 
 var c *lib.Check
-var maxd int
 
 // ---------- alphabet ----------
 
@@ -699,6 +699,9 @@ func runEngine2(mode int, path []int) (stop, notApplicable bool) {
 		}
 		wasOpen := tx != nil
 		tx = ntx
+		if m := cs.m[firstAlive(cs)]; op == opCommit && m.tx != nil && m.tx.tainted && !engErr {
+			c.Add("commits_succeeded_after_outside_write", 1)
+		}
 		var oc [nVariants]outcome
 		alive := cs.settle("stmt-result-mismatch", "engine", mode, path, k, func(q int, m *model) string {
 			o := m.step(op, k, engErr, key)
@@ -859,18 +862,6 @@ func note(op int, wasOpen, engErr bool, m *model) {
 func main() {
 	c = lib.New("C13", "model_checking", 100*time.Second, 25*time.Minute)
 	debug.SetGCPercent(50) // measured: fresh stores allocate large zeroed buffers, a small heap avoids page faults
-	if g := os.Getenv("C13_GC"); g != "" {
-		n, _ := strconv.Atoi(g)
-		debug.SetGCPercent(n)
-	}
-	if g := os.Getenv("C13_MAXD"); g != "" {
-		maxd, _ = strconv.Atoi(g)
-	}
-	if pf := os.Getenv("C13_CPUPROFILE"); pf != "" {
-		f, _ := os.Create(pf)
-		pprof.StartCPUProfile(f)
-		go func() { time.Sleep(12 * time.Second); pprof.StopCPUProfile(); f.Close() }()
-	}
 	c.Assume("sequential part only: one session drives the transaction, a second autocommit session only through the single 'outside:' statement; real concurrency is the scheduler phase")
 	c.Assume("a failing statement aborts the whole transaction (Engine.execPreparedStmts cancels it); the caller continues with the *SQLTx returned by Exec")
 	c.Assume("the value of a generated key is not predicted (not defined by the property): the reported key is applied to the reference and must be fresh and present afterwards")
@@ -880,7 +871,13 @@ func main() {
 	}
 	cwd := lib.Scratch("c13-cwd") // the pgsql server's embedded client writes .state-* / .identity-* files into the cwd
 	os.Chdir(cwd)
-	defer os.RemoveAll(cwd)
+	cleanup := func() { // c.Finish exits the process
+		os.Chdir("/")
+		os.RemoveAll(cwd)
+		if templateDir != "" {
+			os.RemoveAll(templateDir)
+		}
+	}
 	if c.ReplayPath != "" {
 		var r replay
 		c.LoadReplay(&r)
@@ -888,23 +885,13 @@ func main() {
 		flushKnownDefects()
 		c.AddEvals(1)
 		c.AddStates(1, 1)
+		cleanup()
 		c.Finish("replay of one recorded program", false)
 	}
-	fullDepth, extra, lastOps := 4, []int{modeLast}, []int{opCommit, opRollback}
+	// engine front: every program up to fullDepth; one more statement (lastOps) for programs that start with BEGIN
+	fullDepth, extra, lastOps, frontLen := 4, []int{modeLast}, []int{opCommit, opRollback}, 3
 	if c.Thorough() {
-		fullDepth, extra, lastOps = 5, []int{modeLast, modeAll}, allOps
-	}
-	if maxd > 0 {
-		fullDepth = maxd
-	}
-	defer func() {
-		if templateDir != "" {
-			os.RemoveAll(templateDir)
-		}
-	}()
-	frontLen := 3
-	if c.Thorough() {
-		frontLen = 4
+		fullDepth, extra, lastOps, frontLen = 5, []int{modeLast, modeAll}, allOps, 4
 	}
 	// the wire front-ends run their programs sequentially on their own server, next to the engine phase
 	var wg sync.WaitGroup
@@ -915,7 +902,8 @@ func main() {
 	wg.Wait()
 	flushKnownDefects()
 	// (a concurrent-sessions phase under the controlled scheduler goes here)
-	c.Finish(fmt.Sprintf("every program over the %d-statement alphabet up to engine_depth_completed statements through sql.Engine.Exec in modes all/last (iterative deepening), against the reference interpreter: in-tx view, outside view, affected rows, generated keys after every statement; Cancel of an abandoned tx; close+reopen. distinct = (mode, program) pairs run to their end", nOps), !c.Expired())
+	cleanup()
+	c.Finish(fmt.Sprintf("engine front: every program over the %d-statement alphabet up to engine_full_depth_completed statements, plus the programs starting with BEGIN extended by one more statement (quick: COMMIT/ROLLBACK; thorough: any), each on a fresh store through sql.Engine.Exec in the observation modes all/last, against the reference interpreter: statement results, affected rows, generated keys, in-transaction view and outside view after every statement, Cancel of an abandoned transaction, close+reopen. Wire fronts (pgwire, session): every program over the 11-statement sub-alphabet up to front_*_length_completed. distinct = (front/mode, program) pairs executed", nOps), !c.Expired())
 }
 
 func runFront(r replay) bool {
